@@ -181,6 +181,58 @@ func checkC14(c *Ctx) {
 		}
 		return found
 	}
+	// ---- C14-EQ: keys are never matched by identity of the key objects
+	{
+		head := c.field("SexpPair", "Head")
+		nId := 0
+		for _, f := range c.filesFuncs("hashutils.go") {
+			eachInstr(f, func(b *ssa.BasicBlock, i int, in ssa.Instruction) {
+				bo, ok := in.(*ssa.BinOp)
+				if !ok || (bo.Op != token.EQL && bo.Op != token.NEQ) {
+					return
+				}
+				if !types.IsInterface(bo.X.Type()) || !types.IsInterface(bo.Y.Type()) {
+					return
+				}
+				isSentinel := func(v ssa.Value) bool {
+					if isNilConst(v) {
+						return true
+					}
+					v = stripIface(v)
+					if ld, ok := v.(*ssa.UnOp); ok && ld.Op == token.MUL {
+						if _, ok := ld.X.(*ssa.Global); ok {
+							return true
+						}
+					}
+					return false
+				}
+				if isSentinel(bo.X) || isSentinel(bo.Y) {
+					return
+				}
+				isKey := func(v ssa.Value) bool {
+					if head != nil {
+						if _, ok := loadOfField(v, head); ok {
+							return true
+						}
+					}
+					if ld, ok := v.(*ssa.UnOp); ok && ld.Op == token.MUL {
+						if ia, ok := ld.X.(*ssa.IndexAddr); ok && derivesFromField(ia.X, KeyOrder, 0) {
+							return true
+						}
+					}
+					return false
+				}
+				if isKey(bo.X) || isKey(bo.Y) {
+					nId++
+					c.bad("C14-EQ", fnName(f), "keys matched by identity", bo.Pos(),
+						"a stored key is compared with `==` on the interface values: two equal keys held in different objects (an update stores a fresh key object in the bucket while the order list keeps the first one) do not match, so the order list and the buckets drift apart")
+				}
+			})
+		}
+		if nId == 0 {
+			c.ok("C14-EQ", "hashutils.go", "keys matched by identity", token.NoPos, "no `==` between stored key objects in the hash routines: every match goes through Compare")
+		}
+	}
 	mSet := matchOnKey(set, "C14-EQ")
 	mDel := matchOnKey(del, "C14-EQ")
 	mGet := matchOnKey(get, "C14-EQ")
